@@ -672,17 +672,6 @@ func has(d vrt.Disc, t string) bool {
 }
 
 var classifiers = []vrt.Classifier{
-	// C11-K1: Locate evaluates filters without the root of the data (the unexported locate()
-	// methods carry no root argument), so a filter that refers to $ locates other elements
-	// than Get selects.
-	{ID: "C11-K1", Match: func(d vrt.Disc, c *vrt.Ctx) bool {
-		return has(d, "filter-uses-root") && (d.Where == "Locate" || d.Kind == "walk-paths-differ")
-	}},
-	// C11-K3: GetNodes and FirstNode do not return null elements (nil gen.Node) that a filter
-	// selects, Get on the same gen data does.
-	{ID: "C11-K3", Match: func(d vrt.Disc, c *vrt.Ctx) bool {
-		return has(d, "only-nulls-missing") && (d.Where == "GetNodes" || d.Where == "FirstNode")
-	}},
 	// C11-K4: First, FirstFound and Has look at the element at the start index only (no clamping,
 	// end and step ignored) when a slice is applied to a slice or array reached by reflection.
 	// jp/get_test.go (firstTestReflectData, "$[1:1][0]" on []gen.Array expects 2) and
